@@ -53,7 +53,7 @@ extern "C" void vf_setup()
 {
     for (const char *c : {"encoded bytes == reference encoder of the stated layout", "deserialize(serialize(v)) == v",
                           "reader cursor after decode == bytes produced", "enc(a) ++ enc(b) decodes to a then b, cursor after a == |enc(a)|",
-                          "values whose encoding exceeds 64 KiB", "golden encoding still decodes to the recorded value",
+                          "values whose encoding exceeds 64 KiB", "the other entry points of the front end produce / accept the same bytes", "golden encoding still decodes to the recorded value",
                           "recorded value still encodes to the golden bytes", "igris::buffer / string_view encode as u16 length + bytes",
                           "igris::buffer decodes as a view into the input and into caller storage"})
         vf::require(c);
